@@ -86,7 +86,8 @@ def run(ctx):
         raise core.MachineryError("vacuous model: rejected=%d multi=%d kinds=%s" % (n_rej, n_multi, kinds))
     ctx.traces = len(res.cases)
     ctx.extra.update({"histories_by_kind": kinds, "rejected_steps": n_rej, "multi_direction_steps": n_multi})
-    from .. import tracedrv
+    from .. import tracedrv, repotrace
+    repotrace.repo_trace_check(ctx)
     tracedrv.trace_check(ctx, 150 if ctx.tier == "quick" else 1200, 6 if ctx.tier == "quick" else 8)
     ctx.rule = ("every reachable state of MC_C04 (initial shape + history of insert_knot calls) is one case, replayed twice "
                 "(operations.insert_knot and the object method); distinct = distinct (initial shape, history)")
